@@ -38,8 +38,12 @@ ArgPath(e, execdir) == IF execdir THEN DOTSLASH \o BaseName(e.path) ELSE e.path
 ExecArgv(template, e, execdir) == [k \in DOMAIN template |-> ReplaceSub(template[k], BRACES, ArgPath(e, execdir))]
 \* a directory as the recorder reports it (relative to find's own working directory, "./" and "." removed)
 RECURSIVE NormDir(_)
+SLASHDOT == <<SLASH, 46>>
+SLASHDOTSLASH == <<SLASH, 46, SLASH>>
 NormDir(p) == IF p = <<46>> THEN <<>>
               ELSE IF Len(p) >= 2 /\ p[1] = 46 /\ p[2] = SLASH THEN NormDir(SubSeq(p, 3, Len(p)))
+              ELSE IF Len(p) >= 2 /\ SubSeq(p, Len(p) - 1, Len(p)) = SLASHDOT THEN NormDir(SubSeq(p, 1, Len(p) - 2))
+              ELSE IF ReplaceSub(p, SLASHDOTSLASH, <<SLASH>>) # p THEN NormDir(ReplaceSub(p, SLASHDOTSLASH, <<SLASH>>))
               ELSE p
 ExecCwd(e, execdir) == IF execdir THEN NormDir(DirName(e.path)) ELSE <<>>
 
@@ -52,9 +56,10 @@ SingleExecRun(tree, cfg, roots, pre, template, execdir, script, nocmd) ==
    truth |-> [k \in DOMAIN r |-> <<~nocmd /\ StatusAt(script, k) = 0, r[k].path>>],
    exit |-> 0]
 
-\* the starting points for which the property fixes the -execdir working directory and name
+\* the starting points for which the property fixes the -execdir working directory and name ("d/." is d's "." - run
+\* in d as "./."; through ".." the recorder's view of the directory and the spelling part ways)
 ExecdirDom(roots) ==
-  \A r \in DOMAIN roots : LET s == roots[r].spell IN s # <<>> /\ s[Len(s)] # SLASH /\ s # <<46>> /\ BaseName(s) \notin {<<46>>, <<46, 46>>}
+  \A r \in DOMAIN roots : LET s == roots[r].spell IN s # <<>> /\ s[Len(s)] # SLASH /\ s # <<46>> /\ BaseName(s) # <<46, 46>>
 
 (***************************************************************************)
 (* C08: -exec CMD FIXED {} +.  Where the invocations are cut is up to find *)
